@@ -343,27 +343,17 @@ theorem processBanks_sound {Γ : Ctx} (banks : List RegisterBank) (vals : AMap W
     (hb : ∀ b ∈ banks, BankOK Γ vals b) :
     ∃ vals', processBanks banks vals = .ok vals' ∧ ValsOK Γ vals' ∧
       ∀ n, vals.contains n = true → vals'.contains n = true := by
-  have := foldlM_inv (KeepInv Γ vals)
-    (fun (vals : AMap WireValue) (bank : RegisterBank) => do
-      let st ← getOrPanic vals bank.stall
-      let bu ← getOrPanic vals bank.bubble
-      if bu.bits > 0 then
-        bank.defaults.foldlM (fun vals (p : String × WireValue) => setOrPanic vals p.1 p.2) vals
-      else if !(st.bits > 0) then
-        bank.signals.foldlM (fun vals sig => do
-          let nv ← getOrPanic vals sig.1
-          setOrPanic vals sig.2.1 nv) vals
-      else pure vals) banks ?_ vals ⟨hv, fun _ h => h⟩
+  have := foldlM_inv (KeepInv Γ vals) processBank banks ?_ vals ⟨hv, fun _ h => h⟩
   · obtain ⟨vals', h, hk⟩ := this
     exact ⟨vals', h, hk.1, hk.2⟩
   · intro cur bank hbank hcur
     have bok := hb bank hbank
     obtain ⟨st, hst, _⟩ := getOrPanic_of (hcur.2 _ bok.stall)
     obtain ⟨bu, hbu, _⟩ := getOrPanic_of (hcur.2 _ bok.bubble)
-    simp only [hst, hbu, bind, Except.bind]
+    simp only [processBank, hst, hbu, bind, Except.bind]
     by_cases hbub : bu.bits > 0
     · simp only [hbub, ↓reduceIte]
-      apply foldlM_inv (KeepInv Γ vals) _ bank.defaults _ cur hcur
+      apply foldlM_inv (KeepInv Γ vals) setDefault bank.defaults _ cur hcur
       intro v p hp hv'
       obtain ⟨h1, h2, h3⟩ := bok.defaults p hp
       exact setOrPanic_keep hv' p.1 p.2 h3 h1 h2
@@ -372,12 +362,12 @@ theorem processBanks_sound {Γ : Ctx} (banks : List RegisterBank) (vals : AMap W
       · simp only [hstall, Bool.not_true, Bool.false_eq_true, ↓reduceIte, decide_true]
         exact ⟨cur, rfl, hcur⟩
       · simp only [hstall, decide_false, Bool.not_false, ↓reduceIte]
-        apply foldlM_inv (KeepInv Γ vals) _ bank.signals _ cur hcur
+        apply foldlM_inv (KeepInv Γ vals) loadOne bank.signals _ cur hcur
         intro v sg hsg hv'
         obtain ⟨hΓeq, hin, hout⟩ := bok.signals sg hsg
         obtain ⟨nv, hnv, hnv'⟩ := getOrPanic_of (hv'.2 _ hin)
         obtain ⟨hw, hlt⟩ := hv'.1 _ _ hnv'
-        simp only [hnv]
+        simp only [loadOne, hnv, bind, Except.bind]
         exact setOrPanic_keep hv' sg.2.1 nv hout (by rw [← hΓeq]; exact hw) hlt
 
 /-! ### a whole cycle, and any number of cycles -/
